@@ -43,6 +43,9 @@ class _Font:
     def __contains__(self, tag):
         return False
 
+    def get(self, tag, default=None):
+        return default
+
     def getGlyphID(self, name):
         return self.order.index(name)
 
@@ -85,6 +88,13 @@ class _Patched:
             for n in names:
                 self._saved.append((m, n, m.__dict__.get(n, _ABSENT)))      # builtins such as int are shadowed by a module global
                 setattr(m, n, models[n])
+        # fixed-point conversions used by the Fixed / F2Dot14 converters
+        from pyvc.models import fixed_tools
+        ft = fixed_tools()
+        m = importlib.import_module("fontTools.ttLib.tables.otConverters")
+        for n, v in (("fl2fi", ft.floatToFixed), ("fi2fl", ft.fixedToFloat)):
+            self._saved.append((m, n, m.__dict__.get(n, _ABSENT)))
+            setattr(m, n, v)
 
     def teardown(self):
         for m, n, v in self._saved:
@@ -339,8 +349,11 @@ def _deep_eq(x, y, path="", depth=0):
         if type(x) is not type(y):
             return [False]
         skip = ("reader", "font", "tableTag")
-        dx = {k: v for k, v in vars(x).items() if k not in skip and not k.endswith("Count") and v is not None}
-        dy = {k: v for k, v in vars(y).items() if k not in skip and not k.endswith("Count") and v is not None}
+        # absent, None and an empty list are the same content (e.g. AxisRecord.MoreBytes == [] after decompile)
+        def empty(v):
+            return v is None or (isinstance(v, list) and not v)
+        dx = {k: v for k, v in vars(x).items() if k not in skip and not k.endswith("Count") and not empty(v)}
+        dy = {k: v for k, v in vars(y).items() if k not in skip and not k.endswith("Count") and not empty(v)}
         if sorted(dx) != sorted(dy):
             return [False]
         out = []
@@ -366,7 +379,7 @@ def _deep_eq(x, y, path="", depth=0):
     return [eq(x, y)]
 
 
-WHOLE = ("gpos-kern-classes", "gpos-mark-base", "gdef", "gsub-mixed")
+WHOLE = ("gpos-kern-classes", "gpos-mark-base", "gdef", "gsub-mixed", "stat", "hvar")
 
 
 @contract
@@ -418,7 +431,59 @@ class WholeTableRoundTrip(_Patched, Contract):
             a.XCoordinate, a.YCoordinate = i16(tag + "x"), i16(tag + "y")
             return a
 
-        if variant == "gdef":
+        fixed = lambda n: (lambda k: k / 65536 if S.concrete else SymNum(k.real() / 65536))(S.int(n, -2 ** 31, 2 ** 31 - 1))
+        f2dot14 = lambda n: (lambda k: k / 16384 if S.concrete else SymNum(k.real() / 16384))(S.int(n, -16384, 16384))
+        if variant == "stat":
+            t = ot.STAT()
+            t.Version = 0x00010001
+            t.DesignAxisRecordSize = 8
+            t.DesignAxisRecord = ot.AxisRecordArray()
+            t.DesignAxisRecord.Axis = []
+            for i, tg in enumerate(("wght", "wdth")):
+                ar = ot.AxisRecord()
+                ar.AxisTag, ar.AxisNameID, ar.AxisOrdering = tg, S.int("axname%d" % i, 0, 65535), i
+                t.DesignAxisRecord.Axis.append(ar)
+            t.DesignAxisCount = 2
+            t.AxisValueArray = ot.AxisValueArray()
+            vals = []
+            av = ot.AxisValue(); av.Format, av.AxisIndex, av.Flags, av.ValueNameID, av.Value = 1, 0, S.int("fl1", 0, 3), 256, fixed("v1")
+            vals.append(av)
+            av = ot.AxisValue(); av.Format, av.AxisIndex, av.Flags, av.ValueNameID = 2, 1, 0, 257
+            av.NominalValue, av.RangeMinValue, av.RangeMaxValue = fixed("nom"), fixed("rmin"), fixed("rmax")
+            vals.append(av)
+            av = ot.AxisValue(); av.Format, av.AxisIndex, av.Flags, av.ValueNameID, av.Value, av.LinkedValue = 3, 0, 0, 258, fixed("v3"), fixed("link")
+            vals.append(av)
+            t.AxisValueArray.AxisValue = vals
+            t.AxisValueCount = 3
+            t.ElidedFallbackNameID = S.int("elided", 0, 65535)
+            tag = "STAT"
+        elif variant == "hvar":
+            t = ot.HVAR()
+            t.Version = 0x00010000
+            vs = ot.VarStore()
+            vs.Format = 1
+            vs.VarRegionList = ot.VarRegionList()
+            vs.VarRegionList.RegionAxisCount = 1
+            vs.VarRegionList.Region = []
+            for i in range(2):
+                reg = ot.VarRegion()
+                axr = ot.VarRegionAxis()
+                axr.StartCoord, axr.PeakCoord, axr.EndCoord = f2dot14("start%d" % i), f2dot14("peak%d" % i), f2dot14("end%d" % i)
+                reg.VarRegionAxis = [axr]
+                vs.VarRegionList.Region.append(reg)
+            vs.VarRegionList.RegionCount = 2
+            vd = ot.VarData()
+            vd.VarRegionIndex = [0, 1]
+            vd.VarRegionCount = 2
+            vd.NumShorts = 1
+            vd.Item = [[S.int("d%d_0" % i, -32768, 32767), S.int("d%d_1" % i, -128, 127)] for i in range(3)]
+            vd.ItemCount = 3
+            vs.VarData = [vd]
+            vs.VarDataCount = 1
+            t.VarStore = vs
+            t.AdvWidthMap = t.LsbMap = t.RsbMap = None
+            tag = "HVAR"
+        elif variant == "gdef":
             t = ot.GDEF()
             t.Version = 0x00010000
             t.GlyphClassDef = ot.GlyphClassDef()
@@ -495,7 +560,7 @@ class WholeTableRoundTrip(_Patched, Contract):
             t.LookupList = ot.LookupList()
             t.LookupList.Lookup = [lk]
             tag = "GPOS"
-        else:
+        elif variant == "gsub-mixed":
             t = ot.GSUB()
             t.Version = 0x00010000
             scripts_features(t, ["liga", "ccmp", "salt"], 3)
